@@ -8,13 +8,84 @@ SOURCES = {
     "consts": "# -*- coding: utf-8 -*-\nx = 'str'\ny = u'uni\\xe9 \\u4e2d'\nz = (1, 2.5, 2**70, -2**31, None, 'a', b'b\\xff', 1e300, -0.0, 3j)\nw = 2**31\n",
     "funcs": "def f(a, b=3, *c, **d):\n    '''doc'''\n    q = a\n    def g(y):\n        return q + y + b\n    return [g(i) for i in range(2)]\nclass K(object):\n    v = {1: 2, 'k': (None,)}\n    def m(self):\n        try:\n            return self.v[1]\n        except KeyError:\n            raise\n        finally:\n            pass\n",
     "posonly": "def q(a, b, /, c, *, d, e=1):\n    return a + b + c + d + e\ndef k(*, x):\n    return x\ndef p(a, /):\n    return lambda z, /, *, w: (a, z, w)\n",
+    # the file name itself is not ASCII: co_filename of a Python 2 code object is then a str holding UTF-8 bytes
+    "caf\u00e9": "# -*- coding: utf-8 -*-\ndef f(x):\n    return x\nk = 'caf\\xc3\\xa9'\nr = '\\xff\\xfe'\nn = 2 ** 40\nm = -2 ** 63\n",
     "big": "t = (" + ", ".join(str(i) for i in range(300)) + ")\ns = 'x' * 3\n" + "\n".join("v%d = %d" % (i, i) for i in range(40)) + "\n",
 }
 CHK = ("import marshal,sys\nV=sys.version_info\n"
        "def ld(p):\n d=open(p,'rb').read()\n k=8 if V<(3,3) else (12 if V<(3,7) else 16)\n return marshal.loads(d[k:]), d[:k]\n"
-       "def kinds(c):\n out=[]\n for x in c.co_consts:\n  out.append(type(x).__name__)\n  if hasattr(x,'co_code'): out.append(kinds(x))\n return out\n"
+       "F=[n for n in ('co_argcount','co_posonlyargcount','co_kwonlyargcount','co_nlocals','co_stacksize','co_flags','co_code','co_names','co_varnames',"
+       "'co_freevars','co_cellvars','co_filename','co_name','co_qualname','co_firstlineno','co_lnotab','co_linetable','co_exceptiontable')]\n"
+       "def same(a,b):\n"
+       " if type(a) is not type(b): return False\n"
+       " if hasattr(a,'co_code'):\n"
+       "  for n in F:\n"
+       "   if (V<(3,10) or n!='co_lnotab') and hasattr(a,n) and not same(getattr(a,n),getattr(b,n)): return False\n"
+       "  return same(a.co_consts,b.co_consts)\n"
+       " if isinstance(a,(tuple,list)): return len(a)==len(b) and all(same(x,y) for x,y in zip(a,b))\n"
+       " if isinstance(a,float): return repr(a)==repr(b)\n"
+       " if isinstance(a,complex): return repr(a)==repr(b)\n"
+       " if isinstance(a,(set,frozenset)): return sorted(map(repr,a))==sorted(map(repr,b))\n"
+       " return a==b\n"
        "a,ha=ld(sys.argv[1]); b,hb=ld(sys.argv[2])\n"
-       "sys.stdout.write('%d %d\\n' % (a==b, kinds(a)==kinds(b)))\n")
+       "sys.stdout.write('%d %d\\n' % (a==b, same(a,b)))\n")
+
+
+def float_reprs(code):
+    import struct
+    fl = {}
+
+    def walk(v):
+        if isinstance(v, float):
+            fl[struct.unpack("<Q", struct.pack("<d", v))[0]] = list(repr(v).encode())
+        elif isinstance(v, complex):
+            walk(v.real); walk(v.imag)
+        elif isinstance(v, (tuple, list, set, frozenset)):
+            for x in v:
+                walk(x)
+        elif isinstance(v, dict):
+            for k, x in v.items():
+                walk(k); walk(x)
+        elif hasattr(v, "co_consts"):
+            for x in v.co_consts:
+                walk(x)
+    walk(code)
+    return sorted(fl.items())
+
+
+def header_len(vt):
+    return 8 if vt < (3, 3) else (12 if vt < (3, 7) else 16)
+
+
+def one(rec, pyc, wr, exe, buf, load_module, write_bytecode_file, obs_value):
+    """load pyc, write it back to wr, record payloads (writer-supported layouts), let the target judge, re-read with xdis"""
+    try:
+        with contextlib.redirect_stdout(buf), contextlib.redirect_stderr(buf):
+            t = load_module(pyc)
+            vt = tuple(t[0][:2])
+            rec["version"] = list(vt)
+            write_bytecode_file(wr, t[3], t[2], compilation_ts=1234567, filesize=99)
+        rec["written"] = True
+        if (2, 0) <= vt < (3, 11):
+            k = header_len(vt)
+            rec["magic"] = t[2]
+            rec["orig_payload"] = list(open(pyc, "rb").read()[k:])
+            rec["written_payload"] = list(open(wr, "rb").read()[k:])
+            rec["float_reprs"] = float_reprs(t[3])
+    except Exception as e:
+        rec["write_error"] = type(e).__name__
+        return
+    if exe:
+        q = subprocess.run([exe, "-c", CHK, pyc, wr], stdout=subprocess.PIPE, stderr=subprocess.PIPE, text=True)
+        rec["target_says"] = q.stdout.strip() if q.returncode == 0 else ("ERROR " + q.stderr.strip()[-300:])
+    try:
+        with contextlib.redirect_stdout(buf), contextlib.redirect_stderr(buf):
+            t2 = load_module(wr)
+        py3 = tuple(t[0]) >= (3, 0)
+        # magic 3393 (3.7.0b3) is always read as a hash-based header (a reader quirk outside C06's released magics): no timestamp to compare
+        rec["xdis_reread_equal"] = (obs_value(t[3], py3) == obs_value(t2[3], py3)) and (t2[1] == 1234567 or t[2] == 3393) and t2[0] == t[0]
+    except Exception as e:
+        rec["xdis_reread_equal"] = "ERROR " + type(e).__name__
 
 
 def main():
@@ -30,54 +101,22 @@ def main():
             for name, src in SOURCES.items():
                 rec = {"target": ver, "source": name}
                 sp = os.path.join(d, name + ".py")
-                with open(sp, "w") as f:
+                with open(sp, "w", encoding="utf-8") as f:
                     f.write(src)
                 pyc = os.path.join(d, "%s-%s.pyc" % (name, ver)); wr = os.path.join(d, "%s-%s-w.pyc" % (name, ver))
                 p = subprocess.run([exe, "-c", "import py_compile,sys; py_compile.compile(sys.argv[1], cfile=sys.argv[2], doraise=True)", sp, pyc], stderr=subprocess.PIPE, text=True)
                 if p.returncode:
                     rec["skip"] = "target cannot compile the source"
                     out.append(rec); continue
-                try:
-                    with contextlib.redirect_stdout(buf), contextlib.redirect_stderr(buf):
-                        t = load_module(pyc)
-                        write_bytecode_file(wr, t[3], t[2], compilation_ts=1234567, filesize=99)
-                    rec["written"] = True
-                    # for the in-Coq comparison of the payload writer model (Python 3 targets): both payloads and repr() of every float constant
-                    vt = tuple(t[0][:2])
-                    if (3, 0) <= vt < (3, 11):
-                        k = 8 if vt < (3, 3) else (12 if vt < (3, 7) else 16)
-                        import struct
-                        rec["magic"] = t[2]
-                        rec["orig_payload"] = list(open(pyc, "rb").read()[k:])
-                        rec["written_payload"] = list(open(wr, "rb").read()[k:])
-                        fl = {}
-
-                        def walk(v):
-                            if isinstance(v, float):
-                                fl[struct.unpack("<Q", struct.pack("<d", v))[0]] = list(repr(v).encode())
-                            elif isinstance(v, complex):
-                                walk(v.real); walk(v.imag)
-                            elif isinstance(v, (tuple, list, set, frozenset)):
-                                for x in v:
-                                    walk(x)
-                            elif hasattr(v, "co_consts"):
-                                for x in v.co_consts:
-                                    walk(x)
-                        walk(t[3])
-                        rec["float_reprs"] = sorted(fl.items())
-                except Exception as e:
-                    rec["write_error"] = type(e).__name__
-                    out.append(rec); continue
-                q = subprocess.run([exe, "-c", CHK, pyc, wr], stdout=subprocess.PIPE, stderr=subprocess.PIPE, text=True)
-                rec["target_says"] = q.stdout.strip() if q.returncode == 0 else ("ERROR " + q.stderr.strip()[-300:])
-                try:
-                    with contextlib.redirect_stdout(buf), contextlib.redirect_stderr(buf):
-                        t2 = load_module(wr)
-                    py3 = tuple(t[0]) >= (3, 0)
-                    rec["xdis_reread_equal"] = (obs_value(t[3], py3) == obs_value(t2[3], py3)) and t2[1] == 1234567 and t2[0] == t[0]
-                except Exception as e:
-                    rec["xdis_reread_equal"] = "ERROR " + type(e).__name__
+                one(rec, pyc, wr, exe, buf, load_module, write_bytecode_file, obs_value)
                 out.append(rec)
+        # bytecode files of the repository's corpus (versions with no interpreter here included): written back, re-read by xdis,
+        # payload compared with the writer model inside Coq
+        for i, path in enumerate(req.get("corpus", [])):
+            rec = {"target": "corpus", "source": os.path.relpath(path, req.get("corpus_root", "/"))}
+            wr = os.path.join(d, "corpus-%d-w.pyc" % i)
+            one(rec, path, wr, None, buf, load_module, write_bytecode_file, obs_value)
+            out.append(rec)
     finally:
         shutil.rmtree(d, ignore_errors=True)
     sys.__stdout__.write("@@JSON@@" + json.dumps(out) + "\n")
